@@ -179,20 +179,32 @@ theorem takeSnapshot_shift (c : Cfg) (sh : List (List Item)) (off : Nat → Nat)
     · rfl
     · split <;> rfl
 
+theorem snapshotDue_shift (c : Cfg) (sh : List (List Item)) (off : Nat → Nat) (s : State) :
+    snapshotDue (withShards c sh) (shift off s) = (shift off (snapshotDue c s).1, (snapshotDue c s).2) := by
+  unfold snapshotDue
+  have e0 : (withShards c sh).iterable = c.iterable := rfl
+  rw [e0]
+  split <;> rfl
+
 theorem yieldTail_shift (c : Cfg) (sh : List (List Item)) (off : Nat → Nat) (s : State) (b : Nat) :
     MPU.yieldTail (withShards c sh) (shift off s) b =
       (shift off (MPU.yieldTail c s b).1, (MPU.yieldTail c s b).2) := by
   unfold MPU.yieldTail
-  have e1 : (shift off s).numYielded = s.numYielded := rfl
   have e2 : (withShards c sh).interval = c.interval := rfl
-  have e3 : (shift off s).rcvdIdx = s.rcvdIdx := rfl
-  have e4 : (shift off s).mainSnaps = s.mainSnaps := rfl
-  rw [takeSnapshot_shift, e1, e2, e3, e4]
+  rw [e2]
   split
-  · cases takeSnapshot c s with
-    | none => rfl
-    | some s' => rfl
   · rfl
+  · dsimp only
+    rw [snapshotDue_shift]
+    generalize snapshotDue c s = d
+    obtain ⟨d1, d2⟩ := d
+    cases d2
+    · rfl
+    · simp only [if_true]
+      rw [takeSnapshot_shift]
+      cases takeSnapshot c d1 with
+      | none => rfl
+      | some s' => rfl
 
 theorem yieldItem_shift (c : Cfg) (sh : List (List Item)) (off : Nat → Nat) (s : State) (r : Res) (b : Nat) :
     yieldItem (withShards c sh) (shift off s) (shRes off r) b =
